@@ -315,7 +315,7 @@ func runClosedLoop(run *ev.Run, pc pacerCase) c01Stats {
 		}
 		sT := ref.cum(tf)
 		peak := ref.peak(tf)
-		q := (float64(k)+1) * peak
+		q := (float64(k) + 1) * peak
 		eps := 1e-9 * (1 + sT)
 		tol := q + eps
 		if stop {
@@ -362,12 +362,12 @@ func runClosedLoop(run *ev.Run, pc pacerCase) c01Stats {
 		t2 := t + wpos
 		sAt := ref.cum(float64(t2))
 		if !fastRegime {
-			ahead := (float64(k)+1) - sAt
+			ahead := (float64(k) + 1) - sAt
 			if ahead > st.maxAhead {
 				st.maxAhead = ahead
 			}
 			// U: never more than one hit early.
-			if (float64(k)+1) > sAt+1+tol+1e-9*(1+sAt) {
+			if (float64(k) + 1) > sAt+1+tol+1e-9*(1+sAt) {
 				viol("U-early", step, t, k, w, stop, sAt, sT, tol, nil)
 				return st
 			}
@@ -379,7 +379,7 @@ func runClosedLoop(run *ev.Run, pc pacerCase) c01Stats {
 			// L: constant and sine never fall more than one hit behind at the
 			// instants they choose themselves.
 			if pc.Kind != "linear" && w > 0 {
-				behind := sAt - (float64(k)+1)
+				behind := sAt - (float64(k) + 1)
 				if behind > st.maxBehind {
 					st.maxBehind = behind
 				}
@@ -598,7 +598,7 @@ func runC01(c *Ctx) int {
 	}
 
 	steps := c.Pick(5000, 20000)
-	nRandom := c.Pick(260, 40000)
+	nRandom := c.Pick(3000, 40000)
 	stalls := []string{"none", "small", "huge", "mix"}
 	rng := c.Rand("params")
 	cases := c01Grid()
@@ -690,10 +690,10 @@ func runC01(c *Ctx) int {
 	}
 	run.Count("single_point_calls", int64(nPoints))
 
-	run.Floor("pace_calls", int64(c.Pick(500000, 200000000)))
+	run.Floor("pace_calls", int64(c.Pick(20000000, 200000000)))
 	run.Floor("steps_with_positive_wait", 10000)
 	run.Floor("steps_catch_up_or_immediate", 10000)
-	run.FloorDistinct(c.Pick(300, 40000))
+	run.FloorDistinct(c.Pick(3000, 40000))
 	return run.Finish()
 }
 
@@ -729,7 +729,7 @@ func c01Point(run *ev.Run, pc pacerCase, t int64, k uint64) {
 	}
 	if pc.Kind == "constant" && w > 0 && t <= math.MaxInt64-int64(w) {
 		sAt := ref.cum(float64(t) + float64(w))
-		if (float64(k)+1) > sAt+1+tol+1e-9*(1+sAt) {
+		if (float64(k) + 1) > sAt+1+tol+1e-9*(1+sAt) {
 			run.Violate(fmt.Sprintf("C01/U-early/%s/%s", pc.Kind, pc.regime()),
 				fmt.Sprintf("constant pacer %+v at arbitrary point Pace(%d,%d)=(%d,false) releases hit %d when schedule=%.6g (wrapped arithmetic?)", pc, t, k, int64(w), k+1, sAt),
 				c01Witness{Case: pc, Clause: "U-point", Elapsed: t, Hits: k, Wait: int64(w), SchedAt: sAt, SchedT: sT, Tol: tol})
